@@ -441,16 +441,24 @@ class TV:
                 return patom(a)
             return None
 
-        def rename(p):
+        def rename(p, skip=None):
             ren = {a: keep_atom(a) for a in atoms(p)}
             if all(v is not None for v in ren.values()):
                 return psubst(p, lambda a: ren[a], M)
+            # p = (current value of an unwritten cell k) + constant ?
+            if not allc:
+                for k, pk in st.Cb.items():
+                    if k in wc or k in new.D or k == skip:
+                        continue
+                    d = padd(p, pk, M, -1)
+                    if not d or list(d.keys()) == [()]:
+                        return padd(patom(("c", k)), d, M)
             return None
         if not allc:
             for k, p in st.Cb.items():
                 if k in new.D or (k in wc and not optimistic):
                     continue
-                q = rename(p)
+                q = rename(p, skip=k)
                 if q is not None and q != patom(("c", k)):
                     new.Cb[k] = q; new.Ci[k] = q
         for t, p in st.T.items():
